@@ -30,6 +30,7 @@ THEOREMS = [
     "C09.reverse_order",
     "C09.reverseOrderOk_iff",
     "C09.populate_order",
+    "C09.reverse_shape",
     "C09.involutive_flags_counterexample",
     "C09.involutive_index_counterexample",
     "C09.involutive_partial",
@@ -115,6 +116,33 @@ def sql_diffs(op, rr):
     return diffs
 
 
+def judge_undo(ctx, op, j, imp, shape, where):
+    """spec on the single reverse: it names what the op made (Lean `undoesShape`, constraint type included), and wherever
+    the op itself can be emitted its reverse can be emitted too (a downgrade that cannot even be rendered undoes nothing)"""
+    feats = sorted(set(ro.lossy_features(j)))
+    if shape.get("holds") is not True:
+        ctx.fail({"op": j, "where": where}, "undo-shape: reverse() does not name the object / kind the op made (Spec.Reverse.undoesShape): "
+                 "reverse = %s" % json.dumps(ro.op_json(imp["r"]))[:400], impl={"reverse": ro.op_json(imp["r"])}, tags=["residual"])
+    named = not (j["k"] in ("addConstraint",) and j["c"]["name"] is None) and not (j["k"] == "createIndex" and j["ix"]["name"] is None)
+    if not named:
+        return          # an unnamed constraint gets its name from the database: no DDL can name it again
+    if j["k"] in ("dropTable", "dropColumn", "dropIndex", "dropConstraint", "modifyTable"):
+        # the reverse of a drop re-creates the stored object: whether *that* can be emitted on a dialect depends on the
+        # object (MATCH FULL on MySQL, ...), not on reverse(); those ops are judged by the o vs reverse().reverse() DDL oracle
+        return
+    bad = []
+    for d in ro.SQL_CONTEXTS:
+        a = ro.sql_of(op, d)
+        if a.startswith("ERR:"):
+            continue
+        b = ro.sql_of(imp["r"], d)
+        if b.startswith("ERR:"):
+            bad.append({"dialect": d, "forward": a, "reverse": b})
+    if bad:
+        ctx.fail({"op": j, "where": where}, "undo-ddl: the op can be emitted on %s but its reverse() cannot (%s)"
+                 % ([x["dialect"] for x in bad], bad[0]["reverse"]), impl={"sql": bad[:2]}, tags=list(feats) + ["residual"])
+
+
 def judge_involution(ctx, op, j, m, imp, sres, where):
     """spec on the implementation's output: view equality (Lean) and SQL equality on five dialects"""
     if not sres.get("reversible"):
@@ -186,6 +214,11 @@ def check_leafs(ctx, leafs, where):
         if "rr" in imp:
             q2.append({"op": "rev.viewEq", "a": j, "b": imp["rr_json"]})
             idx2.append(i)
+    # the single reverse, judged on the implementation's own output
+    q3 = [(i, {"op": "rev.shape", "o": js[i], "r": ro.op_json(imps[i]["r"])}) for i in range(len(leafs))
+          if "r" in imps[i] and ans[i].get("reversible") is True]
+    for (i, _), sh in zip(q3, ctx.drv.ask([x[1] for x in q3])):
+        judge_undo(ctx, leafs[i], js[i], imps[i], sh, where)
     ans2 = ctx.drv.ask(q2)
     for i, s in zip(idx2, ans2):
         judge_involution(ctx, leafs[i], js[i], ans[i], imps[i], s, where)
